@@ -24,6 +24,34 @@ def defaultColors : Colors :=
   | .ok p => p.colors
   | .error _ => ⟨[], [], [], []⟩
 
+/-- The superscript runs of one line as digit lists, with "nothing but indentation before it" and
+    "nothing after it" flags. -/
+def lineRuns (l : Str) : List (List Nat × Bool × Bool) :=
+  let rec go (rest : Str) (cur : Option (List Nat × Bool)) (clean : Bool) : List (List Nat × Bool × Bool) :=
+    match rest with
+    | [] => match cur with
+      | some (ds, st) => [(ds, st, true)]
+      | none => []
+    | c :: cs =>
+      match Safe.superVal c, cur with
+      | some d, none => go cs (some ([d], clean)) false
+      | some d, some (ds, st) => go cs (some (ds ++ [d], st)) false
+      | none, some (ds, st) => (ds, st, false) :: go cs none false
+      | none, none => go cs none (clean && (c == ' ' || c == '▌' || c == '•'))
+  go l none true
+
+/-- Every number that can be read off the text: the maximal runs, and the concatenation of runs
+    that a hard line break (an overlong word cut at the margin) split over consecutive lines. -/
+def shownNumbers (plain : Str) : List Nat :=
+  let val (ds : List Nat) : Nat := ds.foldl (fun n d => 10 * n + d) 0
+  let step (st : List (List Nat) × List Nat) (l : Str) : List (List Nat) × List Nat :=
+    let runs := lineRuns l
+    if runs.isEmpty then ([], st.2)
+    else runs.foldl (fun (acc : List (List Nat) × List Nat) r =>
+      let cands := [r.1] ++ (if r.2.1 then acc.1.map (· ++ r.1) else [])
+      (if r.2.2 then cands else [], acc.2 ++ cands.map val)) st
+  ((Str.splitNL plain).foldl step ([], [])).2
+
 def renderOp (j : Json) : Except String Res := do
   let impl := (j.getObjVal? "impl").toOption.getD Json.null
   if let .ok _ := impl.getObjVal? "parseerror" then return { model := impl, nontrivial := false }
@@ -89,8 +117,8 @@ def renderOp (j : Json) : Except String Res := do
   -- the numbers shown are 1..N, each exactly once (when nothing was cut)
   let checkNumbers := (j.getObjVal? "checknumbers").toOption == some (Json.bool true)
   let numbersOk := !checkNumbers || (implOuts.zip widths).all fun (o, w) =>
-    -- a one-digit number is a single cell and cannot be split by wrapping
-    w < 1 || (w < 8 && implLinks.length ≥ 10) || (let runs := Safe.superRuns (Safe.strip o) none
+    -- a number of several digits may be cut by a hard break: `shownNumbers` reads it across the break
+    w < 1 || (let runs := shownNumbers (Safe.strip o)
       (List.range implLinks.length).all fun i => runs.contains (i + 1))
   let preds := if isStrOut then
       [("safe_output", safeOk), ("neutral_at_line_ends", neutralOk), ("lines_within_width", widthOk),
